@@ -72,6 +72,9 @@ THEOREMS = [
     "KrroodVerif.Eql.IR.or_left_call",
     "KrroodVerif.Eql.IR.runNode_elseIf",
     "KrroodVerif.Eql.IR.C01_runIR_eq_eval_elseIf_partial",
+    "KrroodVerif.Eql.IR.runNode_union",
+    "KrroodVerif.Eql.IR.C01_runIR_eq_eval_union_partial",
+    "KrroodVerif.Eql.IR.C01_runIR_eq_eval_connectives_partial",
 ]
 # second tie (translator): the table of construction-time rewrites regenerated from the current source equals the one
 # `build` transcribes and is admissible — the same two obligations as C02 (harness/translate/c02_translate.py)
